@@ -2050,6 +2050,11 @@ func (r *c14Runner) startupCase(cw *c14World, c c14Case) {
 
 func TestVerif_C14(t *testing.T) {
 	run := vfNewRun(t, "C14", "fault_enumeration")
+	if c14otOnly() { // VERIF_C14_OT_ONLY=1: only the OIDC-based provider types with a call of their own (development / replay aid)
+		c14OIDCTypes(run, t)
+		run.Finish(0, 0)
+		return
+	}
 	if vfPvOnly() { // VERIF_PV_ONLY=1: only the provider-type sweep (development / replay aid)
 		pw := vfNewWorld(t)
 		c14ProviderTypes(run, pw)
@@ -2542,6 +2547,9 @@ func TestVerif_C14(t *testing.T) {
 		run.Inconclusive("too few clean logins")
 	}
 	run.Extra("cases", len(cases)+len(legacyCases)+len(statusCases)+len(coldJobs)+len(frontCases)+len(lfCases))
+	tOT := time.Now()
+	c14OIDCTypes(run, t) // keycloak-oidc / adfs / gitlab: the provider type's own further call (c14_oidctypes.go); sets the global clock mock
+	run.Extra("oidc_types_seconds", time.Since(tOT).Seconds())
 	pw := vfNewWorld(t)
 	defer pw.Close()
 	c14ProviderTypes(run, pw) // provider-type sweep (c14_providers.go); last, because it sets the global clock mock
